@@ -142,7 +142,7 @@ def run(ctx, out):
                f'{len(bad)} mismatches, {len(errs)} shard errors')
     for e in errs:
         out.violation('C20:corr:shard-error', 'correspondence shard failed: ' + e, {'correspondence': 'corr_rename', 'error': e}, no_input=True)
-    if bad and not any(not v['no_input'] for v in out.violations):
+    if bad and not out.has_unlisted_input():
         i = bad[0]
         out.violation('C20:corr_rename', f'model and implementation disagree on {ascii_ok[i]!r} ({len(bad)} cases) but no property failure found',
                       {'correspondence': 'corr_rename', 'case': ascii_ok[i], 'n_mismatch': len(bad)}, no_input=True)
